@@ -23,16 +23,21 @@ type Step struct {
 	Flavor string    `json:"flavor,omitempty"`
 	Seed   uint64    `json:"seed,omitempty"`
 	N      int       `json:"n,omitempty"`
+	Quiet  bool      `json:"quiet,omitempty"` // no pool method is called after this step (the next step comes first)
 }
 
 func (s Step) String() string {
+	q := ""
+	if s.Quiet {
+		q = "~quiet"
+	}
 	switch s.Kind {
 	case "chain":
-		return s.Op.String()
+		return s.Op.String() + q
 	case "submit":
-		return "submit(" + s.Flavor + ")"
+		return "submit(" + s.Flavor + ")" + q
 	}
-	return s.Kind
+	return s.Kind + q
 }
 
 // A Case determines the tree and the history.
@@ -203,6 +208,41 @@ func Corpus(prop string) []Case {
 		}
 		if b, err := os.ReadFile(f); err == nil && json.Unmarshal(b, &rp) == nil && len(rp.Replay.Case.Plan) > 0 {
 			out = append(out, rp.Replay.Case)
+		}
+	}
+	return out
+}
+
+// QuietStretch marks a run of block submissions of the plan as quiet (no pool method is called
+// between them): the pool submissions inside the run are dropped, and the run sometimes starts with
+// a quiet conflicting submission (refused: the validation cache is discarded).
+func QuietStretch(g *rng.R, plan []Step) []Step {
+	var chainPos []int
+	for i, s := range plan {
+		if s.Kind == "chain" {
+			chainPos = append(chainPos, i)
+		}
+	}
+	if len(chainPos) < 3 {
+		return plan
+	}
+	a := g.Intn(len(chainPos) - 1)
+	b := a + 2 + g.Intn(len(chainPos)-a-1)
+	if b > len(chainPos) {
+		b = len(chainPos)
+	}
+	lo, hi := chainPos[a], chainPos[b-1]
+	var out []Step
+	for i, s := range plan {
+		switch {
+		case i < lo || i > hi:
+			out = append(out, s)
+		case s.Kind == "chain":
+			if i == lo && g.Bool() {
+				out = append(out, Step{Kind: "submit", Flavor: []string{"conflict-v2", "conflict-v1", "set-conflict-v2"}[g.Intn(3)], Seed: g.U64(), Quiet: true})
+			}
+			s.Quiet = true
+			out = append(out, s)
 		}
 	}
 	return out
